@@ -61,9 +61,9 @@ type State struct {
 	xcalls spec.LogVal
 	xm     map[string]spec.LogVal // external calls per callee method
 	xgen   int                    // generation of the per-method bases not yet materialised
-	pc     []*sx.T // branch conditions
-	facts  []*sx.T // assumed facts (callee postconditions, no-fault conditions)
-	defs   []*sx.T // definitions of named terms
+	pc     []*sx.T                // branch conditions
+	facts  []*sx.T                // assumed facts (callee postconditions, no-fault conditions)
+	defs   []*sx.T                // definitions of named terms
 	dirty  bool
 }
 
@@ -173,6 +173,8 @@ func init() {
 func New(pkgs []*packages.Package) *Engine {
 	e := &Engine{Pkgs: map[string]*packages.Package{}, funcs: map[*types.Func]*ast.FuncDecl{}, fpkg: map[*types.Func]*packages.Package{},
 		Specs: map[string]*spec.File{}, Structs: map[string][]spec.Field{}, Lists: map[string]spec.Type{}, stypes: map[string]types.Type{}, globals: map[types.Object]Val{}, extraFn: map[string]string{}, ufSig: map[string]string{}, unmodelled: map[string]int{}, writes: map[*types.Func]bool{}, logs: map[*types.Func]bool{}}
+	spec.Declare = func(key, decl string) { e.extraFn[key] = decl }
+	spec.NeedList = func(elem spec.Type) { e.listOf(elem) }
 	for _, p := range pkgs {
 		e.Pkgs[p.PkgPath] = p
 		for _, f := range p.Syntax {
@@ -316,7 +318,6 @@ func (e *Engine) Prelude(sp *spec.File) (decls []string, quants []smt.Quant) {
 		"(declare-fun W (String) Bool)",
 		"(declare-fun i2b (Int) String)",
 		"(declare-fun b2i (String) Int)",
-		"(declare-const alphabetAddr String)",
 		"(declare-const callingScriptHash String)",
 		"(declare-const store0 Store)",
 	)
